@@ -207,8 +207,22 @@ impl WriteAheadLog {
     /// Truncate segments whose max sequence is strictly before `seq`.
     pub async fn truncate_before(&mut self, seq: u64) -> Result<()> {
         let segments = list_segments(&self.config.wal_dir)?;
+        // While the active segment is empty, the newest older segment with entries carries the
+        // highest sequence number. Keep it, otherwise a reopen finds no entry and restarts at 1,
+        // handing out sequence numbers that were already acknowledged (and recorded as flushed).
+        let mut keep_id = None;
+        if self.current_size == 0 {
+            for segment in segments.iter().rev() {
+                if segment.id < self.current_segment_id
+                    && last_sequence_for_segment(&segment.path)?.is_some()
+                {
+                    keep_id = Some(segment.id);
+                    break;
+                }
+            }
+        }
         for segment in segments {
-            if segment.id >= self.current_segment_id {
+            if segment.id >= self.current_segment_id || Some(segment.id) == keep_id {
                 break;
             }
             if let Some(last_seq) = last_sequence_for_segment(&segment.path)? {
